@@ -114,6 +114,188 @@ func cloneHeader(in http.Header) (out http.Header)
   invariant[3] out != nil && fresh(out) && (forall k string :: k in out ==> (k in in) && out[k] == in[k])
   invariant[3] hop-so-far: forall k string :: (k in out) <==> ((k in in) && !namedByConnection(in, k) && !(exists n int :: 0 <= n && n < idx$3 && k == canon(hopHeaders[n])))
 
+// ---- C10 / C07: one backend attempt (doHandle), per-attempt state of the retried handler, error classification ----
+ghost var gAttempts int       // attempts made for this client request
+ghost var gLastErr error      // what the last attempt returned
+ghost var gNoServer bool
+ghost var gPrepFailed bool
+ghost var gSendFailed bool
+ghost var gCtxErr error       // error of the request context when the send failed
+ghost var gBuildFailed bool
+ghost var gBackendStatus int
+ghost var gDoCtx int          // context handed to doHandle by the handler closure
+ghost var gLimit int          // limit handed to Response.FetchPayload (C07)
+
+iface (lb LoadBalancer) ChooseServer(req *httpprot.Request) (s *Server)
+  trusted
+  modifies allof("filters/proxy.roundRobinLoadBalancer.counter"), allof("ghostf:filters/proxy.roundRobinLoadBalancer.cnt")
+
+func fnSendRequest(r *http.Request, client *http.Client) (resp *http.Response, err error)
+  trusted
+  flag allocates
+  requires r != nil
+  ensures err == nil ==> resp != nil && fresh(resp) && resp.Body != nil && ifaceVal(resp.Body) != 0 && rdRem[ifaceVal(resp.Body)] >= 0
+
+func (spCtx *serverPoolContext) prepareRequest(svr *Server, ctx stdcontext.Context, mirror bool) (err error)
+  trusted
+  flag allocates
+  modifies spCtx.stdReq
+  ensures err == nil ==> spCtx.stdReq != nil && fresh(spCtx.stdReq) && reqCtx(ref(spCtx.stdReq)) == ifaceVal(ctx)
+  ensures err != nil ==> spCtx.stdReq == old(spCtx.stdReq)
+
+func (c *compression) compress(req *http.Request, resp *http.Response) (compressed bool)
+  trusted
+  flag allocates
+  requires resp != nil
+  modifies resp.Body, resp.ContentLength, allof("map<string,[]string>#dom"), allof("map<string,[]string>#card"), allof("map<string,[]string>#val#arr"), allof("map<string,[]string>#val#len"), allof("map<string,[]string>#val#cap"), allof("elem<string>")
+  ensures resp.Body != nil && ifaceVal(resp.Body) != 0 && rdRem[ifaceVal(resp.Body)] >= 0
+
+func (mc *MemoryCache) Store(req *httpprot.Request, resp *httpprot.Response)
+  trusted
+
+func (sp *ServerPool) collectMetrics(spCtx *serverPoolContext)
+  trusted
+  requires response-present-when-metrics-are-collected: spCtx != nil && spCtx.resp != nil && spCtx.resp.Response != nil
+
+func (sp *ServerPool) buildResponse(spCtx *serverPoolContext) (err error)
+  flag allocates
+  requires sp != nil && sp.spec != nil && sp.proxy != nil && sp.proxy.spec != nil && spCtx != nil && spCtx.Context != nil
+  requires spCtx.stdResp != nil && spCtx.stdResp.Body != nil && ifaceVal(spCtx.stdResp.Body) != 0 && rdRem[ifaceVal(spCtx.stdResp.Body)] >= 0
+  modifies spCtx.resp, spCtx.stdResp.Body, spCtx.stdResp.ContentLength, outResp, gLimit, rdRem, limUnder, limN, allof("protocols/httpprot.Response.stream"), allof("protocols/httpprot.Response.payload"), allof("map<string,[]string>#dom"), allof("map<string,[]string>#card"), allof("map<string,[]string>#val#arr"), allof("map<string,[]string>#val#len"), allof("map<string,[]string>#val#cap"), allof("elem<string>")
+  ensures built: err == nil ==> spCtx.resp != nil && fresh(spCtx.resp) && spCtx.resp.Response == spCtx.stdResp && outResp == ref(spCtx.resp)
+  ensures failed-build-leaves-the-response-slot: err != nil ==> spCtx.resp == old(spCtx.resp) && outResp == old(outResp)
+  ensures pool-limit-else-proxy-limit: gLimit == (sp.spec.ServerMaxBodySize != 0 ? sp.spec.ServerMaxBodySize : sp.proxy.spec.ServerMaxBodySize)
+  ghost at call[1] FetchPayload: gLimit := maxPayloadSize
+
+func (sp *ServerPool) buildFailureResponse(spCtx *serverPoolContext, statusCode int)
+  flag allocates
+  requires spCtx != nil && spCtx.Context != nil
+  modifies spCtx.resp, outResp
+  ensures spCtx.resp != nil && fresh(spCtx.resp) && spCtx.resp.Response != nil && spCtx.resp.Response.StatusCode == statusCode && outResp == ref(spCtx.resp)
+
+pred isLB(v interface{}) := v != nil && (typeIs(v, "*roundRobinLoadBalancer") || typeIs(v, "*randomLoadBalancer") || typeIs(v, "*WeightedRandomLoadBalancer") || typeIs(v, "*ipHashLoadBalancer") || typeIs(v, "*headerHashLoadBalancer"))
+pred isSPE(err error, code int, result string) := typeIs(err, "serverPoolError") && as(err, "serverPoolError").code == code && as(err, "serverPoolError").result == result
+
+func (sp *ServerPool) doHandle(attemptCtx stdcontext.Context, spCtx *serverPoolContext) (err error)
+  flag allocates
+  requires sp != nil && sp.spec != nil && sp.proxy != nil && sp.proxy.spec != nil && spCtx != nil && spCtx.Context != nil && spCtx.req != nil
+  requires balancer-published: isLB(sp.loadBalancer.v)
+  assume stdlib-context.DeadlineExceeded-is-a-non-nil-error: stdcontext.DeadlineExceeded != nil
+  modifies spCtx.stdReq, spCtx.stdResp, spCtx.resp, outResp, gLimit, gNoServer, gPrepFailed, gSendFailed, gCtxErr, gBuildFailed, gBackendStatus, rdRem, limUnder, limN, allof("net/http.Response.Body"), allof("net/http.Response.ContentLength"), allof("protocols/httpprot.Response.stream"), allof("protocols/httpprot.Response.payload"), allof("filters/proxy.roundRobinLoadBalancer.counter"), allof("ghostf:filters/proxy.roundRobinLoadBalancer.cnt"), allof("map<string,[]string>#dom"), allof("map<string,[]string>#card"), allof("map<string,[]string>#val#arr"), allof("map<string,[]string>#val#len"), allof("map<string,[]string>#val#cap"), allof("elem<string>")
+  ensures classified: err == nil || typeIs(err, "serverPoolError")
+  ensures no-server-is-503-internalError: gNoServer ==> isSPE(err, 503, "internalError")
+  ensures unbuildable-request-is-500-internalError: !gNoServer && gPrepFailed ==> isSPE(err, 500, "internalError")
+  ensures unanswered-without-context-error-is-503-serverError: gSendFailed && gCtxErr == nil ==> isSPE(err, 503, "serverError")
+  ensures deadline-exceeded-is-408-timeout: gSendFailed && gCtxErr == stdcontext.DeadlineExceeded ==> isSPE(err, 408, "timeout")
+  ensures client-gone-is-499-clientError: gSendFailed && gCtxErr != nil && gCtxErr != stdcontext.DeadlineExceeded ==> isSPE(err, 499, "clientError")
+  ensures unreadable-answer-is-500-internalError: gBuildFailed ==> isSPE(err, 500, "internalError")
+  ensures failure-code-keeps-the-backend-response: !gNoServer && !gPrepFailed && !gSendFailed && !gBuildFailed && (gBackendStatus in sp.failureCodes) ==> isSPE(err, gBackendStatus, "failureCode") && spCtx.resp != nil && fresh(spCtx.resp) && outResp == ref(spCtx.resp)
+  ensures every-error-has-a-cause: err != nil ==> gNoServer || gPrepFailed || gSendFailed || gBuildFailed || (gBackendStatus in sp.failureCodes)
+  ensures built-response-wraps-the-backend-answer: spCtx.resp != old(spCtx.resp) ==> spCtx.resp.Response != nil
+  ensures success-has-a-response-of-this-attempt: err == nil ==> spCtx.resp != nil && fresh(spCtx.resp) && outResp == ref(spCtx.resp) && !gNoServer && !gPrepFailed && !gSendFailed && !gBuildFailed && !(gBackendStatus in sp.failureCodes)
+  ensures response-slot-written-only-by-an-answer-of-this-attempt: spCtx.resp == old(spCtx.resp) || (fresh(spCtx.resp) && !gSendFailed && !gNoServer && !gPrepFailed && !gBuildFailed)
+  ensures no-answer-no-response: (gNoServer || gPrepFailed || gSendFailed || gBuildFailed) ==> spCtx.resp == old(spCtx.resp) && outResp == old(outResp)
+  ghost at entry: gNoServer := false
+  ghost at entry: gPrepFailed := false
+  ghost at entry: gSendFailed := false
+  ghost at entry: gBuildFailed := false
+  ghost at call[1] ChooseServer: gNoServer := s == nil
+  ghost at call[1] prepareRequest: gPrepFailed := err != nil
+  ghost at call[1] fnSendRequest: gSendFailed := err != nil
+  ghost at call[1] fnSendRequest: gBackendStatus := (resp == nil ? 0 : resp.StatusCode)
+  ghost at call[1] Err: gCtxErr := err
+  ghost at call[1] buildResponse: gBuildFailed := err != nil
+
+// ---- C10: ServerPool.handle = resilience wrappers around the per-attempt handler ----
+ghost var gInCtx int          // context the attempt was called with
+ghost var gAttemptResp int    // response slot at the end of the last attempt (0: none)
+ghost var gWrapCalls int
+ghost var gCBWrapAt int
+ghost var gRetryWrapAt int
+ghost var gCacheHit bool
+ghost var gShort bool
+
+pred noAnswer() := gNoServer || gPrepFailed || gSendFailed || gBuildFailed
+pred respStatus(r int) := ptr(r, "*httpprot.Response").Response.StatusCode
+
+func (sp *ServerPool) handleMirror(spCtx *serverPoolContext)
+  trusted
+
+func (sp *ServerPool) buildResponseFromCache(spCtx *serverPoolContext) (hit bool)
+  trusted
+  flag allocates
+  modifies spCtx.resp, outResp
+  ensures hit ==> spCtx.resp != nil && fresh(spCtx.resp) && spCtx.resp.Response != nil && outResp == ref(spCtx.resp)
+  ensures !hit ==> spCtx.resp == old(spCtx.resp) && outResp == old(outResp)
+
+func (sp *ServerPool) handle(ctx *context.Context, mirror bool) (result string)
+  flag allocates
+  flag frame=unchecked
+  requires sp != nil && sp.spec != nil && sp.proxy != nil && sp.proxy.spec != nil && isLB(sp.loadBalancer.v)
+  requires ctx != nil && ctx.span != nil && ctxInput(ref(ctx)) != 0
+  requires wrappers-are-distinct-objects: sp.retryWrapper == nil || sp.retryWrapper != sp.circuitBreakerWrapper
+  assume stdlib-context.DeadlineExceeded-is-a-non-nil-error: stdcontext.DeadlineExceeded != nil
+  ensures mirror-pool-never-answers: mirror ==> result == "" && outResp == old(outResp) && gAttempts == old(gAttempts)
+  ensures cached-answer-makes-no-attempt: gCacheHit ==> result == "" && gAttempts == old(gAttempts)
+  ensures streamed-request-bodies-are-never-retried: gRetryWrapAt > 0 ==> ptr(ctxInput(ref(ctx)), "*httpprot.Request").stream == nil
+  ensures buffered-requests-are-retried-when-a-retry-policy-is-set: !mirror && !gCacheHit && sp.retryWrapper != nil && ptr(ctxInput(ref(ctx)), "*httpprot.Request").stream == nil ==> gRetryWrapAt > 0
+  ensures circuit-breaker-wraps-when-set: !mirror && !gCacheHit && sp.circuitBreakerWrapper != nil ==> gCBWrapAt > 0
+  ensures circuit-breaker-is-the-outermost-wrapper: gCBWrapAt > 0 ==> gCBWrapAt == gWrapCalls && gRetryWrapAt < gCBWrapAt
+  ensures each-wrapper-at-most-once: gWrapCalls == (gRetryWrapAt > 0 ? 1 : 0) + (gCBWrapAt > 0 ? 1 : 0)
+  ensures short-circuit-is-503-without-an-attempt: gShort ==> result == "shortCircuited" && gAttempts == old(gAttempts) && respStatus(outResp) == 503
+  ensures success-shows-the-last-attempts-response: !mirror && !gCacheHit && !gShort && gLastErr == nil ==> result == "" && outResp == gAttemptResp && gAttemptResp != 0
+  ensures failure-result-is-the-last-attempts: !mirror && !gCacheHit && !gShort && gLastErr != nil ==> result == as(gLastErr, "serverPoolError").result
+  ensures unanswered-last-attempt-gets-a-failure-response-with-its-code: !mirror && !gCacheHit && !gShort && gLastErr != nil && noAnswer() ==> respStatus(outResp) == as(gLastErr, "serverPoolError").code
+  ensures failure-code-answer-of-the-last-attempt-is-passed-on: !mirror && !gCacheHit && !gShort && gLastErr != nil && !noAnswer() ==> outResp == gAttemptResp && gAttemptResp != 0
+  ghost at entry: gCacheHit := false
+  ghost at entry: gShort := false
+  ghost at entry: gRetryWrapAt := 0
+  ghost at entry: gCBWrapAt := 0
+  ghost at entry: gWrapCalls := 0
+  ghost at call[1] buildResponseFromCache: gCacheHit := hit
+  ghost at call Wrap: gWrapCalls := gWrapCalls + 1
+  ghost at call Wrap: gRetryWrapAt := (w == sp.retryWrapper ? gWrapCalls : gRetryWrapAt)
+  ghost at call Wrap: gCBWrapAt := (w == sp.circuitBreakerWrapper ? gWrapCalls : gCBWrapAt)
+  ghost at call[1] handler: gShort := err == resilience.ErrShortCircuited
+  closure[1] (stdctx stdcontext.Context) (err error)
+    flag allocates
+    flag frame=unchecked
+    requires sp != nil && sp.spec != nil && sp.proxy != nil && sp.proxy.spec != nil && isLB(sp.loadBalancer.v)
+    requires ctx != nil && ctx.span != nil && spCtx != nil && spCtx.Context == ctx && spCtx.req != nil
+    assume stdlib-context.DeadlineExceeded-is-a-non-nil-error: stdcontext.DeadlineExceeded != nil
+    ensures one-more-attempt: gAttempts == old(gAttempts) + 1 && gLastErr == err && gAttemptResp == ref(spCtx.resp)
+    ensures attempt-runs-under-the-pool-timeout: sp.timeout > 0 ==> ctxTimeout(gDoCtx) == sp.timeout
+    ensures without-pool-timeout-the-callers-context-is-used: sp.timeout <= 0 ==> gDoCtx == gInCtx
+    ensures no-response-of-an-earlier-attempt-survives: spCtx.resp == nil || fresh(spCtx.resp)
+    ensures unanswered-attempt-leaves-no-response: noAnswer() ==> spCtx.resp == nil
+    ensures response-slot-is-what-the-client-sees: spCtx.resp != nil ==> outResp == ref(spCtx.resp)
+    ensures success-has-a-response: err == nil ==> spCtx.resp != nil
+    ensures response-is-complete: spCtx.resp != nil ==> spCtx.resp.Response != nil
+    ensures classified: err == nil || typeIs(err, "serverPoolError")
+    ensures failed-and-answered-means-failure-code: err != nil && !noAnswer() ==> spCtx.resp != nil
+    ghost at entry: gAttempts := gAttempts + 1
+    ghost at entry: gInCtx := ifaceVal(stdctx)
+    ghost at call[1] doHandle: gDoCtx := ifaceVal(attemptCtx)
+    ghost at return: gLastErr := err
+    ghost at return: gAttemptResp := ref(spCtx.resp)
+  end
+
+// The handler finally invoked by handle is the per-attempt closure, possibly wrapped by the retry and the
+// circuit-breaker wrapper. This contract is the composition of closure[1] above with the contracts proved for
+// the closures returned by RetryPolicy.Wrap / circuitBreakerWrapper.Wrap in pkg/resilience (runs the inner
+// handler >= 1 times and returns the last outcome / runs it not at all and returns ErrShortCircuited): the
+// state predicates established by the last attempt hold afterwards. The composition step itself is assumed.
+func (sp *ServerPool) handle#handler(c stdcontext.Context) (err error)
+  trusted
+  flag locals
+  flag allocates
+  modifies spCtx.stdReq, spCtx.stdResp, spCtx.resp, spCtx.span, outResp, gAttempts, gLastErr, gAttemptResp, gInCtx, gDoCtx, gLimit, gNoServer, gPrepFailed, gSendFailed, gCtxErr, gBuildFailed, gBackendStatus, rdRem, limUnder, limN, allof("net/http.Response.Body"), allof("net/http.Response.ContentLength"), allof("protocols/httpprot.Response.stream"), allof("protocols/httpprot.Response.payload"), allof("filters/proxy.roundRobinLoadBalancer.counter"), allof("ghostf:filters/proxy.roundRobinLoadBalancer.cnt"), allof("map<string,[]string>#dom"), allof("map<string,[]string>#card"), allof("map<string,[]string>#val#arr"), allof("map<string,[]string>#val#len"), allof("map<string,[]string>#val#cap"), allof("elem<string>")
+  ensures short-circuit-makes-no-attempt: err == resilience.ErrShortCircuited ==> gAttempts == old(gAttempts) && spCtx.resp == old(spCtx.resp) && outResp == old(outResp)
+  ensures otherwise-the-outcome-of-the-last-attempt: err != resilience.ErrShortCircuited ==> gAttempts > old(gAttempts) && err == gLastErr && gAttemptResp == ref(spCtx.resp) && (spCtx.resp == nil || fresh(spCtx.resp)) && (noAnswer() ==> spCtx.resp == nil) && (spCtx.resp != nil ==> outResp == ref(spCtx.resp)) && (err == nil ==> spCtx.resp != nil) && (err == nil || typeIs(err, "serverPoolError")) && (err != nil && !noAnswer() ==> spCtx.resp != nil) && (spCtx.resp != nil ==> spCtx.resp.Response != nil)
+
+func (sp *ServerPool) handle#cancel()
+  trusted
+
 // ---- C13: wiring of resilience policies named by a pool ----
 func (sp *ServerPool) InjectResiliencePolicy(policies map[string]resilience.Policy)
   flag frame=unchecked
